@@ -24,7 +24,7 @@ func TestMain(m *testing.M) {
 }
 
 // restart decisions are drawn three times as often as the others: the restart clauses need a completed restart
-var cfg = world.GenCfg{MaxActors: 5, MaxDepth: 3, Failures: true, Hooks: true, Kills: true, Become: true, Spawns: true, MaxOps: 8, LifecycleFail: true, Watch: true,
+var cfg = world.GenCfg{MaxActors: 5, MaxDepth: 3, Failures: true, Hooks: true, Kills: true, Become: true, Spawns: true, MaxOps: 8, LifecycleFail: true, Watch: true, LateSpawn: true,
 	Decisions: []string{"restart", "restart", "restart", "grestart", "grestart", "grestart", "stop", "gstop", "resume", "escalate"}}
 
 type verdict struct{ sig, detail string }
